@@ -15,41 +15,46 @@ Definition structure (f : list stmt) : list stmt := structure_with gen_negcmp ge
 
 (* The full statement: for every flat, well-labelled instruction stream, the reconstructed program
    flattens back to the same canonical stream (same instructions, times, difficulty masks, jump
-   targets as (position, time), explicit time arguments), provided no cond chain negates a count jump
-   (that exclusion is exactly the defect C07_count_jump_negation_refuted below). *)
+   targets as (position, time), explicit time arguments). *)
 Definition C07_full : Prop :=
-  forall f, is_flat f = true -> well_labelled f -> no_cnt_chain (structure f) = true ->
-  canon (structure f) = canon f.
+  forall f, is_flat f = true -> well_labelled f -> canon (structure f) = canon f.
 
 Theorem C07_structure_canon : C07_full.
-Proof. exact C07_full_proof. Qed.
-
-(* the defect: a forward count jump `if (--x > 0) goto L` becomes `if (--x <= 0) { ... }`, which no format
-   can compile; the canonical stream of the reconstruction differs from the input's *)
-Theorem C07_count_jump_negation_refuted :
-  g_if_cnt gen_guards = false ->     (* holds of the current source; becomes vacuous once fixes/c07-count-jump-negation.diff is applied *)
-  exists f, is_flat f = true /\ well_labelled f /\ canon (structure f) <> canon f.
-Proof. exact count_jump_negation_refuted. Qed.
+Proof. exact C07_all_proof. Qed.
 
 (* "never moves a label that something else still jumps to": every label still mentioned after the
    reconstruction denotes the same (position, time) as in the input stream *)
 Theorem C07_referenced_labels_keep_position_and_time :
-  forall f, is_flat f = true -> well_labelled f -> no_cnt_chain (structure f) = true ->
+  forall f, is_flat f = true -> well_labelled f ->
   forall l, In l (refs (structure f)) -> lookup (lenv st0 (structure f)) l = lookup (lenv st0 f) l.
-Proof. exact referenced_labels_keep_position_and_time. Qed.
+Proof. exact referenced_labels_all. Qed.
 
 (* "never captures a jump with an explicit time argument": the explicit time arguments, instruction by
    instruction, are those of the input (jumps generated for loops / cond chains / breaks carry none) *)
 Theorem C07_explicit_time_jumps_untouched :
-  forall f, is_flat f = true -> well_labelled f -> no_cnt_chain (structure f) = true ->
+  forall f, is_flat f = true -> well_labelled f ->
   map explicit_time (canon (structure f)) = map explicit_time (canon f).
-Proof. exact explicit_time_jumps_untouched. Qed.
+Proof. exact explicit_time_all. Qed.
 
 (* "never alters time labels": every instruction keeps the time the time labels give it *)
 Theorem C07_time_labels_unchanged :
-  forall f, is_flat f = true -> well_labelled f -> no_cnt_chain (structure f) = true ->
+  forall f, is_flat f = true -> well_labelled f ->
   map item_time (canon (structure f)) = map item_time (canon f).
-Proof. exact time_labels_unchanged. Qed.
+Proof. exact item_times_all. Qed.
+
+(* The defect this check found (fixed in truth 9533770, which added the guard g_if_cnt): without that guard a
+   forward count jump `if (--x > 0) goto L` became `if (--x <= 0) { ... }`, which no format can compile, and the
+   canonical stream of the reconstruction differed from the input's.  Independently of the guard, the
+   statement holds for every stream whose reconstruction has no such cond block: *)
+Theorem C07_structure_canon_without_count_chains :
+  forall f, is_flat f = true -> well_labelled f -> no_cnt_chain (structure f) = true ->
+  canon (structure f) = canon f.
+Proof. exact C07_full_proof. Qed.
+
+Theorem C07_count_jump_negation_refuted :
+  g_if_cnt gen_guards = false ->     (* held of the source before 9533770; vacuous now *)
+  exists f, is_flat f = true /\ well_labelled f /\ canon (structure f) <> canon f.
+Proof. exact count_jump_negation_refuted. Qed.
 
 (* each pass on its own, over partially structured programs (the loop pass only ever sees flat input) *)
 Theorem C07_loop_pass_preserves : forall f, is_flat f = true -> well_labelled f ->
@@ -75,8 +80,8 @@ Theorem C07_pass_order : gen_pass_order = [PLoop; PIfElse; PBreak; PUnused].
 Proof. exact gen_pass_order_ok. Qed.
 Theorem C07_negate_comparison_involutive : forall op op', gen_negcmp op = Some op' -> gen_negcmp op' = Some op.
 Proof. exact gen_negcmp_involutive. Qed.
-Theorem C07_essential_guards_present : essential_guards gen_guards = true.
-Proof. exact gen_guards_essential. Qed.
+Theorem C07_essential_guards_present : essential_guards gen_guards = true /\ g_if_cnt gen_guards = true.
+Proof. exact (conj gen_guards_essential gen_if_cnt). Qed.
 
 (* non-vacuity: a stream with a do-while loop, an if/else chain, a break, an explicit-time jump and a dropped
    label satisfies the hypotheses and is really restructured *)
